@@ -475,7 +475,10 @@ def xstack_effect(opcode, opc, oparg: int = 0, jump=None):
         return -oparg
     if opname == "BUILD_MAP" and version_tuple >= (3, 5):
         return 1 - (2 * oparg)
-    elif opname in ("UNPACK_SEQUENCE", "UNPACK_EX") and version_tuple >= (3, 0):
+    elif opname == "UNPACK_EX" and version_tuple >= (3, 0):
+        # the low byte counts the names before the starred one, the next byte those after it
+        return push + (oparg & 0xFF) + (oparg >> 8)
+    elif opname == "UNPACK_SEQUENCE" and version_tuple >= (3, 0):
         return push + oparg
     elif opname in (
         "BUILD_LIST",
@@ -484,21 +487,22 @@ def xstack_effect(opcode, opc, oparg: int = 0, jump=None):
         "BUILD_TUPLE",
     ) and version_tuple >= (3, 12):
         return 1 - oparg
-    elif opname in ("BUILD_SLICE") and version_tuple <= (2, 7):
+    elif opname == "BUILD_SLICE":
         return -2 if oparg == 3 else -1
+    elif opname == "FORMAT_VALUE":
+        # a format spec (FVS_HAVE_SPEC) is popped too
+        return -1 if (oparg & 4) == 4 else 0
     elif opname == "LOAD_ATTR" and version_tuple >= (3, 12):
         return 1 if oparg & 1 else 0
     elif opname == "MAKE_FUNCTION":
         if version_tuple >= (3, 5):
-            if 0 <= oparg <= 10:
-                if version_tuple == (3, 5):
-                    return [-1, -2, -3, -3, -2, -3, -3, -4, -2, -3, -3, -4][oparg]
-                elif (3, 6) <= version_tuple < (3, 11):
-                    return [-1, -2, -2, -3, -2, -3, -3, -4, -2, -3, -3, -4][oparg]
-                elif 0 <= oparg <= 2:
-                    return [0, -1, -1][oparg]
-                else:
-                    return None
+            if version_tuple >= (3, 6):
+                # one pop per flag bit (defaults, kwdefaults, annotations, closure),
+                # plus the qualified name before 3.11
+                flags = bin(oparg & 0xF).count("1")
+                return -flags - (1 if version_tuple < (3, 11) else 0)
+            elif 0 <= oparg <= 10:
+                return [-1, -2, -3, -3, -2, -3, -3, -4, -2, -3, -3, -4][oparg]
             else:
                 return None
     elif opname == "CALL" and version_tuple >= (3, 12):
@@ -508,10 +512,8 @@ def xstack_effect(opcode, opc, oparg: int = 0, jump=None):
     elif opname == "CALL_FUNCTION_EX":
         if (3, 5) <= version_tuple < (3, 11):
             return -2 if oparg & 1 else -1
-        elif 0 <= oparg <= 3:
-            return -3 if oparg & 1 else -2
         else:
-            return None
+            return -3 if oparg & 1 else -2
     elif opname in (
         "INSTRUMENTED_LOAD_SUPER_ATTR",
         "LOAD_SUPER_ATTR",
